@@ -63,6 +63,7 @@ POOLS5 = [
     [("x", 0), ("x", 1), ("y", 0), "z", 2],
     [-3, 1, -1, 15, 9],
     ["x0", -1, 0, ("t",), "y"],
+    ["x0", "x1", "x2", "y", "z"],          # integer_var('x', k) creates the labels 'x0', 'x1', ...
 ]
 INT_POOLS5 = [
     [0, 1, 2, 3, 4],
@@ -145,7 +146,23 @@ _REPEATS = st.sampled_from([False, True, True])
 _BUILD = st.sampled_from(["iadd", "iadd", "init"])
 
 
+def _leaf_var(draw, ctx):
+    """A variable created with the documented helpers boolean_var / spin_var / integer_var (PCBO / PCSO objects)."""
+    if ctx.spin:
+        l = draw(st.sampled_from(list(ctx.labels)))
+        return ["L", "PCSO", [[(l,), 1]], ["spin_var", l]]
+    bits = [l for l in ("x0", "x1", "x2") if l in ctx.labels]
+    if bits and draw(_BOOL):
+        k = draw(st.integers(1, len(bits)))
+        log = draw(_BOOL)
+        return ["L", "PCBO", [[("x%d" % i,), (2 ** i if log else 1)] for i in range(k)], ["integer_var", "x", k, log]]
+    l = draw(st.sampled_from(list(ctx.labels)))
+    return ["L", "PCBO", [[(l,), 1]], ["boolean_var", l]]
+
+
 def _leaf_model(draw, ctx, budget):
+    if ("PCSO" if ctx.spin else "PCBO") in ctx.kinds and (budget is None or budget >= 1) and draw(st.integers(0, 5)) == 0:
+        return _leaf_var(draw, ctx)
     kind = draw(st.sampled_from(ctx.kinds))
     m = 3 if budget is None else budget
     if gen.is_quad(kind):
@@ -445,7 +462,12 @@ class Run:
             d = {k: v for k, v in gen.terms_dict(terms).items() if v != 0}
             self.classes.add("leaf_dict")
             return Val(d, "dict", tab, poly, scale, D, exact, list(d.keys()))
-        if build == "init":
+        if isinstance(build, (list, tuple)):
+            obj = lib(getattr(qv, build[0]), *build[1:], what=build[0])
+            self.classes.add("leaf_" + build[0])
+            if type(obj).__name__ != kind:
+                raise Violation("var_type/" + build[0], "%s%r is a %s" % (build[0], tuple(build[1:]), type(obj).__name__))
+        elif build == "init":
             obj = lib(gen.build_from_dict, qv, kind, terms, what="build")
         else:
             obj = lib(gen.build, qv, kind, terms, what="build")
